@@ -92,7 +92,7 @@ theorem aliasEndsInUser_shape {api : Api} {n : Nat} {t : Ty} (h : aliasEndsInUse
 theorem globals_aliasSection (api : Api) (ns : Namespace) :
     (aliasSection api ns).flatMap Stmt.globals
       = ns.aliases.flatMap (fun a => (fmtClass a.name ++ "_validator") ::
-          (if aliasEndsInUser api api.nAliases a.ty then [a.name] else [])) := by
+          (if aliasEndsInUser api api.nAliases a.ty then [fmtClass a.name] else [])) := by
   simp only [aliasSection]
   induction ns.aliases with
   | nil => rfl
